@@ -292,7 +292,16 @@ def _seq(stmts, ctr, what):
 
 def _stmt(st, ctr, what):
     ctr.tick(what)
-    if isinstance(st, ast.Return):
+    if isinstance(st, ast.Return) and isinstance(st.value, ast.IfExp):
+        # `return a if c else b` is `if c: return a` / `else: return b`: the two results are reported as separate paths
+        for pol, val in ((True, st.value.body), (False, st.value.orelse)):
+            r = ast.Return(value=val)
+            ast.copy_location(r, st)
+            r._parent = getattr(st, "_parent", None)
+            r._module = getattr(st, "_module", None)
+            for ev, k, n in _stmt(r, ctr, what):
+                yield [("cond", st.value.test, pol)] + ev, k, n
+    elif isinstance(st, ast.Return):
         yield [("stmt", st)], "return", st
     elif isinstance(st, ast.Raise):
         yield [("stmt", st)], "raise", st
